@@ -410,7 +410,11 @@ def gen_long_case(rng, idx, malformed):
             'pair': '%s/%s' % (wide, narrow), 'below_1MiB': bool(below)}
     if malformed:
         ids = foreign_ids(wide, narrow, n_wide)
-        fid = int(ids[int(rng.integers(0, len(ids)))])
+        # most of the time an id whose residue modulo the narrow width lies inside the declared range (a wrapping
+        # cast would count it in another cell); otherwise any of the boundary values
+        wrapping = [v for v in ids if v % (2 ** (8 * np.dtype(narrow).itemsize)) < n_wide]
+        pool = wrapping if (wrapping and rng.random() < 0.7) else ids
+        fid = int(pool[int(rng.integers(0, len(pool)))])
         W['over'] = [[int(rng.integers(0, T)), int(rng.integers(0, F)), fid]]
         case.update(kind='malformed', why='long-mixed-width-foreign-id', foreign=fid)
     else:
